@@ -102,6 +102,8 @@ class Hist:
             op = {'k': k, 's': rng.getrandbits(48)}
             if k in ('into_bench', 'replace_subcircuit', 'graphviz_bench') and rng.random() < cfg['p_fault']:
                 op['f'] = [{'at': f'uuid#{rng.randint(2, 6)}', 'kind': 'collide'}]
+            if k in ('circuit_sat', 'miter') and rng.random() < cfg['p_fault']:
+                op['f'] = [{'at': 'sat.solve#1', 'kind': 'backend-error'}]
             if k == 'traverse' and rng.random() < 2 * cfg['p_fault']:
                 op['f'] = [{'at': f'task#{rng.randint(1, 4)}', 'kind': rng.choice(('abandon', 'hook-reentrant', 'hook-raises'))}
                            for _ in range(rng.choice((1, 1, 2)))]
